@@ -233,20 +233,23 @@ def _run_enumdecode(inst, res):
     # the restricted problem as well
     gp0 = gp
     n_fix = 0
-    for k, dv in enumerate(gp0.all_des_vars):
-        if not dv.is_discrete or any(s_ <= k < e_ for _, _, _, s_, e_, _ in gp0._conn_choice_data_map.values()):
-            continue
+    from adsg_core import DesignVariableNode
+    fixable = [k for k, dv in enumerate(gp0.all_des_vars)
+               if dv.is_discrete and not any(s_ <= k < e_ for _, _, _, s_, e_, _ in gp0._conn_choice_data_map.values())]
+    dv_first = [k for k in fixable if isinstance(gp0.all_des_vars[k].node, DesignVariableNode)][:1]
+    for k in fixable[:2]+[k for k in dv_first if k not in fixable[:2]]:
+        dv = gp0.all_des_vars[k]
         for val in range(dv.n_opts):
             gp_f, _, _ = dsg_pool.make_processor(name)
             try:
+                gp_f.get_all_discrete_x()  # (the free problem has been enumerated before the variable is fixed)
+                gp_f.get_n_valid_designs(with_fixed=True)
                 gp_f.fix_des_var(gp_f.all_des_vars[k], val)
                 if len(gp_f.des_vars) > 0:
                     _enum_vs_decode(gp_f, name, res, (k, val))
             except RuntimeError as e:  # an empty restricted problem
                 res['notes'].append(f'fix {k}={val}: {e}')
         n_fix += 1
-        if n_fix >= 2:
-            break
     res['paths'] = max(1, n_rows)
     res['sample'] = dict(harness=inst['label'], rows=n_rows, note='auxiliary concrete check (free problem and single fixes)')
 
